@@ -10,6 +10,7 @@ import (
 	"fmt"
 	"sort"
 	"strings"
+	gosync "sync"
 	"time"
 
 	"verifharness/internal/hx"
@@ -120,6 +121,11 @@ type Backend struct {
 	FF   time.Duration // accumulated FastForward of this case
 	ids  map[string]int
 	seen map[string][]string // key -> version strings seen for it, oldest first
+	// miniredis' clock moves with FastForward only; Exec moves it by the real time that passed since
+	// `synced`, so that the server's clock is the reference clock of the case (real time + FF)
+	synced  time.Time
+	syncMu  gosync.Mutex
+	lastExp map[string]int64 // key -> reference instant (ns) of the ExpiresAt last written for it by this harness
 }
 
 func NewInmem() *Backend {
@@ -160,6 +166,8 @@ func (b *Backend) Reset() {
 	b.seen = map[string][]string{}
 	b.FF = 0
 	b.T0 = time.Now()
+	b.synced = b.T0
+	b.lastExp = map[string]int64{}
 }
 
 func (b *Backend) CoqBackend() string {
@@ -207,9 +215,34 @@ func (b *Backend) Version(key, sel string) string {
 // now on the reference clock of the case, ns
 func (b *Backend) now() int64 { return int64(time.Since(b.T0) + b.FF) }
 
+// sync moves miniredis' clock by the real time that passed since the last call
+func (b *Backend) sync() {
+	if b.MR == nil {
+		return
+	}
+	b.syncMu.Lock()
+	defer b.syncMu.Unlock()
+	now := time.Now()
+	if d := now.Sub(b.synced); d > 0 {
+		b.MR.FastForward(d)
+		b.synced = now
+	}
+}
+
+// expires turns an expiration spec into ExpiresAt: a Go duration from now ("1h", "-1h", "30ms", "2h0.5s"),
+// or "<duration>~<fraction>": now+duration cut down to a whole wall-clock second plus the fraction
+// ("2h~900ms": an ExpiresAt whose sub-second part is .9)
 func (b *Backend) expires(exp string) (*time.Time, *int64) {
 	if exp == "" {
 		return nil, nil
+	}
+	frac := time.Duration(-1)
+	if i := strings.Index(exp, "~"); i >= 0 {
+		f, err := time.ParseDuration(exp[i+1:])
+		if err != nil {
+			panic(err)
+		}
+		frac, exp = f, exp[:i]
 	}
 	d, err := time.ParseDuration(exp)
 	if err != nil {
@@ -217,8 +250,34 @@ func (b *Backend) expires(exp string) (*time.Time, *int64) {
 	}
 	// wall-clock instant without monotonic reading: what a record read back from Redis carries, too
 	t := time.Now().Add(d).Round(0)
+	if frac >= 0 {
+		t = t.Truncate(time.Second).Add(frac)
+	}
 	e := t.UnixNano() - b.T0.UnixNano()
 	return &t, &e
+}
+
+// expiresAt: the expiration (relative to T0, ns) the LAST record of the batch with that key carries
+func (b *Backend) expiresAt(key string, recs []kvs.Record) (*time.Time, *int64) {
+	for i := len(recs) - 1; i >= 0; i-- {
+		if recs[i].Key == key {
+			if recs[i].ExpiresAt == nil {
+				return nil, nil
+			}
+			e := recs[i].ExpiresAt.UnixNano() - b.T0.UnixNano()
+			return recs[i].ExpiresAt, &e
+		}
+	}
+	return nil, nil
+}
+
+// wrote remembers the reference instant of the expiration just written for key
+func (b *Backend) wrote(key string, e *int64) {
+	if e == nil {
+		delete(b.lastExp, key)
+		return
+	}
+	b.lastExp[key] = *e + int64(b.FF)
 }
 
 func (b *Backend) coqRec(r kvs.Record) string {
@@ -247,6 +306,18 @@ func (b *Backend) Exec(op Op) (obs Obs, ok bool) {
 	ctx := context.Background()
 	if op.K == "A" {
 		d := time.Duration(op.D) * time.Millisecond
+		if op.Key != "" {
+			// to D ms after (negative: before) the expiration last written for the key; nothing if that is past
+			e, ok := b.lastExp[op.Key]
+			if !ok {
+				return Obs{}, false
+			}
+			b.sync()
+			d = time.Duration(e-b.now()) + d
+			if d <= 0 {
+				return Obs{}, false
+			}
+		}
 		if b.MR != nil {
 			b.MR.FastForward(d)
 			b.FF += d
@@ -264,6 +335,7 @@ func (b *Backend) Exec(op Op) (obs Obs, ok bool) {
 			}
 		}()
 		obs.T0 = b.now()
+		b.sync()
 		f()
 	}
 	switch op.K {
@@ -277,6 +349,7 @@ func (b *Backend) Exec(op Op) (obs Obs, ok bool) {
 			case "OOk":
 				out = "OVer " + hx.Nat(b.ID(v))
 				b.note(op.Key, v)
+				b.wrote(op.Key, e)
 			case "OExist":
 				out = "OExist " + hx.Nat(b.ID(v))
 				b.note(op.Key, v)
@@ -332,6 +405,7 @@ func (b *Backend) Exec(op Op) (obs Obs, ok bool) {
 			}
 			out = "ORec " + b.coqRec(r)
 			b.note(op.Key, r.Version)
+			b.wrote(op.Key, e)
 		})
 	case "N":
 		recs := make([]kvs.Record, len(op.Recs))
@@ -346,6 +420,12 @@ func (b *Backend) Exec(op Op) (obs Obs, ok bool) {
 			err := b.S.PutMany(ctx, recs)
 			obs.T1 = b.now()
 			out = Class(err)
+			if out == "OOk" {
+				for _, r := range op.Recs {
+					_, e := b.expiresAt(r.Key, recs)
+					b.wrote(r.Key, e)
+				}
+			}
 		})
 	case "S":
 		t, e := b.expires(op.Exp)
@@ -360,6 +440,7 @@ func (b *Backend) Exec(op Op) (obs Obs, ok bool) {
 			}
 			out = "ORec " + b.coqRec(r)
 			b.note(op.Key, r.Version)
+			b.wrote(op.Key, e)
 		})
 	case "D":
 		coqOp = fmt.Sprintf("XOp (Delete %s)", hx.Str(op.Key))
@@ -403,6 +484,23 @@ func (b *Backend) Exec(op Op) (obs Obs, ok bool) {
 			// (go-redis then fails the GET with the context's error): the context's error of a short wait
 			// is reported only if it persists over three attempts with deadlines d, 4d, 16d. The call
 			// changes nothing, so repeating it is harmless; the last attempt is the observation.
+			// a wait lasts: keep the server's clock moving meanwhile (every millisecond)
+			stop := make(chan struct{})
+			defer close(stop)
+			if b.MR != nil {
+				go func() {
+					tk := time.NewTicker(time.Millisecond)
+					defer tk.Stop()
+					for {
+						select {
+						case <-stop:
+							return
+						case <-tk.C:
+							b.sync()
+						}
+					}
+				}()
+			}
 			var err error
 			var dl time.Time
 			for attempt := 0; attempt < 3; attempt++ {
@@ -421,8 +519,17 @@ func (b *Backend) Exec(op Op) (obs Obs, ok bool) {
 			if out == "OCtx" {
 				// the context's error is justified by the record still being there, unchanged, when the
 				// context ended (the return may be noticed much later on a busy machine)
-				obs.T0 = int64(dl.Sub(b.T0) + b.FF)
-				obs.T1 = obs.T0
+				// (the Redis client polls, with pauses of up to 64 ms: there it is justified by the record being
+				// there at its last look, at most 100 ms before the context ended)
+				start := obs.T0
+				obs.T1 = int64(dl.Sub(b.T0) + b.FF)
+				obs.T0 = obs.T1
+				if b.MR != nil {
+					obs.T0 = obs.T1 - int64(100*time.Millisecond)
+					if obs.T0 < start {
+						obs.T0 = start
+					}
+				}
 			}
 		})
 	default:
